@@ -164,3 +164,81 @@ Proof.
   split; [vm_compute; reflexivity|]. split; vm_compute; reflexivity.
 Qed.
 Print Assumptions C20_example.
+
+(* ---- the curve arithmetic of ge.go (Models/Ed.v), over any field of characteristic other than 2.
+   ext_ok: Z invertible and T = XY/Z; ax, ay: the affine coordinates X/Z, Y/Z; D: d x1 x2 y1 y2
+   (1 + D and 1 - D do not vanish on the curve, d being a non-square: taken as hypotheses here). *)
+From DosVerif Require Import Gen.EdConsts Models.Ed Proofs.EdProofs.
+
+(* point.Add computes the twisted Edwards addition law on the affine coordinates *)
+Theorem C20_point_add :
+  forall (K : Type) (O : Fops K), Flaws O -> forall (d : K) (p q : ext (K:=K)),
+  fadd O (f1 O) (f1 O) <> f0 O -> ext_ok O p -> ext_ok O q ->
+  let x1 := ax O p in let y1 := ay O p in let x2 := ax O q in let y2 := ay O q in
+  let D := fmul O (fmul O (fmul O (fmul O d x1) x2) y1) y2 in
+  fadd O (f1 O) D <> f0 O -> fsub O (f1 O) D <> f0 O ->
+  let r := pt_add O (fadd O d d) p q in
+  ext_ok O r /\
+  ax O r = fmul O (fadd O (fmul O x1 y2) (fmul O y1 x2)) (finv O (fadd O (f1 O) D)) /\
+  ay O r = fmul O (fadd O (fmul O y1 y2) (fmul O x1 x2)) (finv O (fsub O (f1 O) D)).
+Proof. exact (@pt_add_spec). Qed.
+Print Assumptions C20_point_add.
+
+Theorem C20_point_sub :
+  forall (K : Type) (O : Fops K), Flaws O -> forall (d : K) (p q : ext (K:=K)),
+  pt_sub O (fadd O d d) p q = pt_add O (fadd O d d) p (pt_neg O q).
+Proof. exact (@pt_sub_is_add_neg). Qed.
+Print Assumptions C20_point_sub.
+
+Theorem C20_point_neg :
+  forall (K : Type) (O : Fops K), Flaws O -> forall p : ext (K:=K),
+  ext_ok O p -> ext_ok O (pt_neg O p) /\ ax O (pt_neg O p) = fopp O (ax O p) /\ ay O (pt_neg O p) = ay O p.
+Proof. exact (@pt_neg_spec). Qed.
+Print Assumptions C20_point_neg.
+
+(* the doubling used inside Mul, on a point of the curve, is the addition law applied to (P, P) *)
+Theorem C20_point_double :
+  forall (K : Type) (O : Fops K), Flaws O -> forall (d : K) (p : ext (K:=K)),
+  fadd O (f1 O) (f1 O) <> f0 O -> ext_ok O p -> on_curve O d p ->
+  let x := ax O p in let y := ay O p in
+  let D := fmul O (fmul O (fmul O (fmul O d x) x) y) y in
+  fadd O (f1 O) D <> f0 O -> fsub O (f1 O) D <> f0 O ->
+  let r := pt_double O p in
+  ext_ok O r /\
+  ax O r = fmul O (fadd O (fmul O x y) (fmul O y x)) (finv O (fadd O (f1 O) D)) /\
+  ay O r = fmul O (fadd O (fmul O y y) (fmul O x x)) (finv O (fsub O (f1 O) D)).
+Proof. exact (@pt_double_spec). Qed.
+Print Assumptions C20_point_double.
+
+(* the sum depends on the elements, not on the extended coordinates that represent them *)
+Theorem C20_point_add_representation_independent :
+  forall (K : Type) (O : Fops K), Flaws O -> forall (d : K) (p p' q q' : ext (K:=K)),
+  fadd O (f1 O) (f1 O) <> f0 O -> eeqv O p p' -> eeqv O q q' ->
+  fadd O (f1 O) (fmul O (fmul O (fmul O (fmul O d (ax O p)) (ax O q)) (ay O p)) (ay O q)) <> f0 O ->
+  fsub O (f1 O) (fmul O (fmul O (fmul O (fmul O d (ax O p)) (ax O q)) (ay O p)) (ay O q)) <> f0 O ->
+  eeqv O (pt_add O (fadd O d d) p q) (pt_add O (fadd O d d) p' q').
+Proof. exact (@pt_add_respects). Qed.
+Print Assumptions C20_point_add_representation_independent.
+
+(* the constants the translator reads from const.go: the field prime is 2^255 - 19, d2 = 2d,
+   sqrtM1^2 = -1, d = -121665/121666, the base point has T Z = X Y, lies on the curve, y = 4/5 *)
+Theorem C20_ed_constants :
+  src_ed_p = 2 ^ 255 - 19 /\
+  src_ed_d2 = (2 * src_ed_d) mod src_ed_p /\
+  (src_ed_sqrtm1 * src_ed_sqrtm1 + 1) mod src_ed_p = 0 /\
+  (src_ed_d * 121666 + 121665) mod src_ed_p = 0 /\
+  let '(X, Y, Z, T) := src_ed_base in
+  (T * Z - X * Y) mod src_ed_p = 0 /\
+  ((Y * Y - X * X) * Z * Z - (Z * Z * Z * Z + src_ed_d * X * X * Y * Y)) mod src_ed_p = 0 /\
+  (5 * Y - 4 * Z) mod src_ed_p = 0.
+Proof. exact ed_consts_ok. Qed.
+Print Assumptions C20_ed_constants.
+
+(* non-vacuity: the digits geScalarMult walks for 2^252 (and a recoding with negative digits), and the
+   model's base point in affine form (the executable model is run in the correspondence check: one
+   scalar multiplication takes seconds inside Coq, milliseconds extracted) *)
+Example C20_ed_example :
+  hd 0 (digits_msf (2 ^ 252)) = 1 /\ digits_msf 255 = repeat 0 61 ++ [1; 0; -1]
+  /\ (5 * zv (ay fe_ops ed_base) - 4) mod ed_p = 0.
+Proof. split; [vm_compute; reflexivity|]. split; vm_compute; reflexivity. Qed.
+Print Assumptions C20_ed_example.
